@@ -418,15 +418,16 @@ func (sw *schedWorld) execTaskOp(w *World, k int, op Op) (res string) {
 		sets := tblSets
 		s := sets[op.W%len(sets)]
 		r := []rune(string(op.A) + "a")[0]
+		// no fmt on task goroutines (see Obs.Key)
 		switch (op.W / len(sets)) % 3 {
 		case 0:
 			d := s.Set(uint(r) & 0x7f)
-			return fmt.Sprintf("tbl.Set:%v/%v", d.RuneShouldBeEncoded(r), s.RuneShouldBeEncoded(r))
+			return "tbl.Set:" + strconv.FormatBool(d.RuneShouldBeEncoded(r)) + "/" + strconv.FormatBool(s.RuneShouldBeEncoded(r))
 		case 1:
 			d := s.Clear(uint(r) & 0x7f)
-			return fmt.Sprintf("tbl.Clear:%v/%v", d.RuneShouldBeEncoded(r), s.RuneShouldBeEncoded(r))
+			return "tbl.Clear:" + strconv.FormatBool(d.RuneShouldBeEncoded(r)) + "/" + strconv.FormatBool(s.RuneShouldBeEncoded(r))
 		}
-		return fmt.Sprintf("tbl.Test:%v/%v/%v", s.RuneShouldBeEncoded(r), s.ByteShouldBeEncoded(byte(r)), s.RuneNotInSet(r))
+		return "tbl.Test:" + strconv.FormatBool(s.RuneShouldBeEncoded(r)) + "/" + strconv.FormatBool(s.ByteShouldBeEncoded(byte(r))) + "/" + strconv.FormatBool(s.RuneNotInSet(r))
 	}
 	if op.K == "pes" {
 		p := w.P
@@ -469,9 +470,12 @@ func (sw *schedWorld) execTaskOp(w *World, k int, op Op) (res string) {
 		case "sp.get":
 			sb.WriteString(" get=" + sh.SP.Get(string(op.A)))
 		case "sp.getall":
-			sb.WriteString(fmt.Sprintf(" getall=%q", sh.SP.GetAll(string(op.A))))
+			sb.WriteString(" getall=")
+			for _, v := range sh.SP.GetAll(string(op.A)) {
+				sb.WriteString(strconv.Quote(v) + ",")
+			}
 		case "sp.has":
-			sb.WriteString(fmt.Sprintf(" has=%v", sh.SP.Has(string(op.A))))
+			sb.WriteString(" has=" + strconv.FormatBool(sh.SP.Has(string(op.A))))
 		default:
 			sb.WriteString(" str=" + sh.SP.String())
 		}
@@ -1230,12 +1234,17 @@ func reportSchedViolation(fv *FoundViolation, race bool, mr, mp *Merged, t0 time
 			infra("C14 violation does not reproduce under its explicit schedule")
 		}
 	}
-	pred := func(p *Plan) bool { return matches(runOne(bin, p, *fTmp, atomic)) }
+	// a candidate counts only if it reproduces twice in fresh processes (keeps the minimised plan
+	// away from anything whose detection depends on accidental synchronisation inside dependencies)
+	pred := func(p *Plan) bool {
+		return matches(runOne(bin, p, *fTmp, atomic)) && matches(runOne(bin, p, *fTmp, atomic))
+	}
 	small := shrinkSched(pl, pred)
 	r1 := runOne(bin, &small, *fTmp, atomic)
 	r2 := runOne(bin, &small, *fTmp, atomic)
 	if !matches(r1) || !matches(r2) {
-		infra("minimised C14 plan does not reproduce deterministically")
+		b, _ := json.Marshal(small)
+		infra("minimised C14 plan does not reproduce deterministically: want clause %s sig %q; run1 race=%v sig=%q clause=%q; run2 race=%v sig=%q clause=%q\nplan: %s", clause, sig, r1.Race, r1.RaceSig, r1.Res.Clause, r2.Race, r2.RaceSig, r2.Res.Clause, b)
 	}
 	rep := Replay{Property: "C14", Clause: clause, Plan: small, Trace: schedTrace(&small)}
 	if clause == "C14.race" {
